@@ -54,6 +54,23 @@ theorem zipM_stripTo_qtys {src dst : List U} (h : Conv src dst) :
       rw [show (Except.ok (v * s.scale / d.scale) : Except Err Rat) = pure (v * s.scale / d.scale) from rfl, pure_bind, this]
       rfl
 
+theorem zipM_stripOrKeep_qtys {src dst : List U} (h : Conv src dst) :
+    ∀ vals : List Rat, vals.length = src.length →
+      zipM stripOrKeep (qtys vals src) dst = .ok (scaleBy src dst vals) := by
+  induction h with
+  | nil => intro vals _; simp [qtys, scaleBy]; rfl
+  | @cons s d ss ds hd _ ih =>
+    intro vals hl
+    match vals, hl with
+    | v :: vs, hl =>
+      have hl' : vs.length = ss.length := by simpa using hl
+      have := ih vs hl'
+      simp only [qtys, List.zip_cons_cons, List.map_cons] at this ⊢
+      rw [zipM_cons, show stripOrKeep (Arg.qty v s) d = .ok (v * s.scale / d.scale) by simp [stripOrKeep, toValue, hd]]
+      simp only [scaleBy, List.zip_cons_cons, List.map_cons] at this ⊢
+      rw [show (Except.ok (v * s.scale / d.scale) : Except Err Rat) = pure (v * s.scale / d.scale) from rfl, pure_bind, this]
+      rfl
+
 theorem mapM_unBare_bare (vals : List Rat) : (vals.map Arg.bare).mapM unBare = (.ok vals : Except Err _) := by
   induction vals with
   | nil => rfl
@@ -135,8 +152,8 @@ theorem values_agree (w : W) (hq : w.fwd.usesQ = true) (wf : w.fwd.WF w.pixU w.w
   have h1 : w.pixelToWorldValues pix = .ok (scaleBy w.fwd.outU w.worldU (w.fwd.f (scaleBy w.pixU w.fwd.inU pix))) := by
     simp only [W.pixelToWorldValues, addUnitsInput, hq, ↓reduceIte, removeQuantityOutput]
     rw [Tr.eval_qtys _ hq wf.convIn _ hl]
-    show zipM stripTo _ _ = _
-    apply zipM_stripTo_qtys wf.convOut
+    show zipM stripOrKeep _ _ = _
+    apply zipM_stripOrKeep_qtys wf.convOut
     apply wf.arity
     rw [scaleBy_length _ _ _ hl wf.convIn.length, hl, wf.convIn.length]
   refine ⟨h1, ?_⟩
@@ -161,8 +178,8 @@ theorem world_values_agree (w : W) (hq : w.bwd.usesQ = true) (hq' : w.fwd.usesQ 
   have h1 : w.worldToPixelValues world = .ok (scaleBy w.bwd.outU w.pixU (w.bwd.f (scaleBy w.worldU w.bwd.inU world))) := by
     simp only [W.worldToPixelValues, addUnitsInput, hq, hq', ↓reduceIte, removeQuantityOutput, invert_usesQ w hq]
     rw [Tr.eval_qtys _ hq wf.convIn _ hl]
-    show zipM stripTo _ _ = _
-    apply zipM_stripTo_qtys wf.convOut
+    show zipM stripOrKeep _ _ = _
+    apply zipM_stripOrKeep_qtys wf.convOut
     apply wf.arity
     rw [scaleBy_length _ _ _ hl wf.convIn.length, hl, wf.convIn.length]
   refine ⟨h1, ?_⟩
@@ -175,6 +192,38 @@ theorem world_values_agree (w : W) (hq : w.bwd.usesQ = true) (hq' : w.fwd.usesQ 
   simp only [hb]
   show ((List.map Arg.bare _).mapM unBare) = _
   rw [mapM_unBare_bare]
+
+theorem zipM_stripOrKeep_bare : ∀ (vals : List Rat) (us : List U), vals.length = us.length →
+    zipM stripOrKeep (vals.map Arg.bare) us = .ok vals := by
+  intro vals
+  induction vals with
+  | nil => intro us h; cases us <;> simp_all <;> rfl
+  | cons v vs ih =>
+    intro us h
+    cases us with
+    | nil => simp at h
+    | cons u us' =>
+      have := ih us' (by simpa using h)
+      simp only [List.map_cons]
+      rw [zipM_cons]
+      show (do let cs ← zipM stripOrKeep (vs.map Arg.bare) us'; pure (v :: cs)) = _
+      rw [this]; rfl
+
+/-- **a user-supplied unit-free inverse next to a unit-carrying forward transform is honoured as given**: bare world numbers
+(frame units) go straight to it, and the values interface returns its pixels as bare numbers -/
+theorem mixed_world_values (w : W) (hb : w.bwd.usesQ = false) (world : List Rat)
+    (hlen : (w.bwd.f world).length = w.pixU.length) :
+    w.worldToPixelValues world = .ok (w.bwd.f world) := by
+  have hinv : w.invert (world.map Arg.bare) = w.bwd.eval (world.map Arg.bare) := by
+    unfold W.invert; cases world <;> simp
+  simp only [W.worldToPixelValues, addUnitsInput, hb, Bool.false_eq_true, ↓reduceIte, hinv, Tr.eval_bare _ hb, removeQuantityOutput]
+  cases hf : w.fwd.usesQ
+  · simp only [Bool.false_eq_true, ↓reduceIte]
+    show ((List.map Arg.bare _).mapM unBare) = _
+    rw [mapM_unBare_bare]
+  · simp only [↓reduceIte]
+    show zipM stripOrKeep _ _ = _
+    exact zipM_stripOrKeep_bare _ _ hlen
 
 /-- **world quantities in any convertible unit** invert, on a unit-free WCS, exactly like the bare
 numbers obtained by converting them to the frame units -/
